@@ -156,6 +156,9 @@ func valOf(typ string, tok, poff int) pq.Val {
 	if typ == "string" && tok == 999 {
 		return pq.Val{Bytes: []byte(bigString)}
 	}
+	if typ == "string" && tok == 998 {
+		return pq.Val{Bytes: []byte(noisyString)}
+	}
 	b, s := bitsOf(poolVal(typ, tok, poff))
 	return pq.Val{Bits: b, Bytes: s}
 }
